@@ -169,6 +169,15 @@ Theorem C10_no_lock_cycle : LockOrder.cyclic_locks LockTable.lock_table = [].
 Proof. vm_compute. reflexivity. Qed.
 Print Assumptions C10_no_lock_cycle.
 
+(* several sessions can lose their clients at the same moment (one failing transport carries many streams), and a
+   new session can be negotiating meanwhile: the tear-down path writes the session table, so on the source of this
+   run every write to a guarded field happens under the exclusive mode of its guard and every read under at least
+   the shared mode (a table written under the shared mode is a concurrent map write: the Go runtime ends the whole
+   process, a harmless disconnect taking the server down for everyone) *)
+Theorem C10_teardown_lock_discipline : LockOrder.bad_accesses LockTable.lock_table = [].
+Proof. vm_compute. reflexivity. Qed.
+Print Assumptions C10_teardown_lock_discipline.
+
 
 (* an abandoned or rejected RPC takes the error paths of the functions it runs through: none of them - in the source
    of this run - returns with a lock it took still held (each return and the end of each body, branch by branch;
